@@ -339,6 +339,16 @@ class _Quantifier(_UnaryOperator):
     def add_data(self, facts: Union[Tuple[float, float], Fact, Set]):
         super().add_data(facts)
 
+    def reset_bounds(self):
+        super().reset_bounds()
+        for neuron in self.neurons:
+            neuron.reset_bounds()
+
+    def flush(self):
+        super().flush()
+        for neuron in self.neurons:
+            neuron.flush()
+
 
 class Not(_UnaryOperator):
     r"""Symbolic Negation
